@@ -533,64 +533,271 @@ fn function_level(rep: &Report, dbs: &[Db]) {
 
 // ---------------------------------------------------------------- level B: real sockets
 
-async fn free_port() -> u16 {
-    let l = tokio::net::TcpListener::bind("127.0.0.1:0").await.expect("bind");
-    l.local_addr().map(|a| a.port()).unwrap_or(0)
+/// Why a server task ended on its own.
+#[derive(Clone, Debug)]
+enum Exit {
+    /// `start_server` could not bind its port: someone else is listening there. Nothing seen
+    /// through that port says anything about the project's server — the scenario is void and is
+    /// run again.
+    BindFailed(String),
+    /// any other end of a server that is meant to run forever: judged (server-died)
+    Other(String),
+}
+
+/// One of the two servers of a scenario.
+struct Srv {
+    task: tokio::task::JoinHandle<()>,
+    /// set when `start_server` returned
+    exit: Arc<std::sync::OnceLock<Exit>>,
+    /// set when the first poll of `start_server` is over. `start_server` binds before its first
+    /// await that can be pending, so from then on `exit` says whether the bind succeeded.
+    polled: Arc<std::sync::atomic::AtomicBool>,
+}
+
+impl Srv {
+    fn spawn<F>(delay: Option<Duration>, server: F) -> Srv
+    where
+        F: std::future::Future<Output = Result<(), cascette_ribbit::ServerError>> + Send + 'static,
+    {
+        let exit = Arc::new(std::sync::OnceLock::new());
+        let polled = Arc::new(std::sync::atomic::AtomicBool::new(false));
+        let (x, p) = (exit.clone(), polled.clone());
+        let task = tokio::spawn(async move {
+            if let Some(d) = delay {
+                tokio::time::sleep(d).await;
+            }
+            let mut server = Box::pin(server);
+            std::future::poll_fn(move |cx| {
+                let r = server.as_mut().poll(cx);
+                let done = if let std::task::Poll::Ready(r) = r {
+                    let _ = x.set(exit_of(r));
+                    std::task::Poll::Ready(())
+                } else {
+                    std::task::Poll::Pending
+                };
+                p.store(true, std::sync::atomic::Ordering::Release);
+                done
+            })
+            .await;
+        });
+        Srv { task, exit, polled }
+    }
+    fn polled(&self) -> bool {
+        self.polled.load(std::sync::atomic::Ordering::Acquire) || self.task.is_finished()
+    }
+    /// The server task ended although it had bound its port.
+    fn died(&self) -> Option<String> {
+        match self.exit.get() {
+            Some(Exit::BindFailed(_)) => None,
+            Some(Exit::Other(e)) => Some(e.clone()),
+            None if self.task.is_finished() => Some("the task ended (panic)".to_string()),
+            None => None,
+        }
+    }
 }
 
 struct Servers {
     tcp_port: u16,
     http_port: u16,
-    tcp_task: tokio::task::JoinHandle<()>,
-    http_task: tokio::task::JoinHandle<()>,
+    tcp: Srv,
+    http: Srv,
+    /// the two ports stay set aside for as long as the servers run
+    _reserved: Vec<crate::net::ReservedPort>,
 }
 
-async fn start_servers(state: Arc<AppState>) -> Option<Servers> {
-    for _ in 0..5 {
-        let tcp_port = free_port().await;
-        let http_port = free_port().await;
-        let s1 = state.clone();
-        let s2 = state.clone();
-        let tcp_task = tokio::spawn(async move {
-            let _ = cascette_ribbit::tcp::start_server(format!("127.0.0.1:{tcp_port}").parse().unwrap(), s1).await;
-        });
-        let http_task = tokio::spawn(async move {
-            let _ = cascette_ribbit::http::start_server(format!("127.0.0.1:{http_port}").parse().unwrap(), s2).await;
-        });
-        // wait until both accept
-        let mut ok = false;
-        for _ in 0..100 {
-            let a = tokio::net::TcpStream::connect(("127.0.0.1", tcp_port)).await.is_ok();
-            let b = tokio::net::TcpStream::connect(("127.0.0.1", http_port)).await.is_ok();
-            if a && b {
-                ok = true;
+impl Servers {
+    /// `Some(why)` when one of the two servers never owned its port. Waits (bounded) for the
+    /// first poll of both server tasks, after which the answer is final.
+    async fn lost_port(&self) -> Option<String> {
+        for _ in 0..400 {
+            if self.tcp.polled() && self.http.polled() {
                 break;
             }
-            if tcp_task.is_finished() || http_task.is_finished() {
+            tokio::time::sleep(Duration::from_millis(5)).await;
+        }
+        self.lost_port_now()
+    }
+    fn lost_port_now(&self) -> Option<String> {
+        for (name, srv) in [("TCP", &self.tcp), ("HTTP", &self.http)] {
+            if let Some(Exit::BindFailed(e)) = srv.exit.get() {
+                return Some(format!("{name} server: {e}"));
+            }
+        }
+        None
+    }
+    fn stop(&self) {
+        self.tcp.task.abort();
+        self.http.task.abort();
+    }
+}
+
+fn exit_of(r: Result<(), cascette_ribbit::ServerError>) -> Exit {
+    match r {
+        Err(e @ (cascette_ribbit::ServerError::TcpBindFailed { .. } | cascette_ribbit::ServerError::HttpBindFailed { .. })) => Exit::BindFailed(error_chain(&e)),
+        Err(e) => Exit::Other(format!("start_server returned Err: {}", error_chain(&e))),
+        Ok(()) => Exit::Other("start_server returned Ok(())".to_string()),
+    }
+}
+
+fn error_chain(e: &dyn std::error::Error) -> String {
+    let mut s = e.to_string();
+    let mut cur = e.source();
+    while let Some(c) = cur {
+        let t = c.to_string();
+        if !s.contains(&t) {
+            s.push_str(": ");
+            s.push_str(&t);
+        }
+        cur = c.source();
+    }
+    s
+}
+
+/// Scenarios that were void because a server lost its port to someone else, and were run again.
+static PORT_RACES: std::sync::atomic::AtomicU64 = std::sync::atomic::AtomicU64::new(0);
+/// Server starts that had to fall back to pick-close-bind (see `start_servers`).
+static UNRESERVED_STARTS: std::sync::atomic::AtomicU64 = std::sync::atomic::AtomicU64::new(0);
+const PORT_ATTEMPTS: usize = 6;
+
+/// Self-test of the lost-port handling (never set by a registered command):
+/// `VERIF_C15_STEAL_PORT=early|late` makes every 5th server start lose its TCP port to a foreign
+/// listener that answers every connection with an HTTP error, the way a neighbouring scenario's
+/// HTTP server would. `early`: the server's bind() fails before the start-up probe looks;
+/// `late` (returns true): the server task binds 60 ms later and the start-up probe does not wait
+/// for it, so the probe is answered by the foreign listener and the whole scenario runs against
+/// it before the loss is noticed. Either way the run must end exactly as without the variable,
+/// with the void scenarios counted.
+async fn steal_port_self_test(tcp_port: u16) -> bool {
+    static CALLS: std::sync::atomic::AtomicU64 = std::sync::atomic::AtomicU64::new(0);
+    let Ok(mode) = std::env::var("VERIF_C15_STEAL_PORT") else { return false };
+    if CALLS.fetch_add(1, std::sync::atomic::Ordering::Relaxed) % 5 != 2 {
+        return false;
+    }
+    // explicit bind with SO_REUSEADDR: allowed next to the (non-listening) reservation
+    let Ok(l) = tokio::net::TcpListener::bind(("127.0.0.1", tcp_port)).await else { return false };
+    tokio::spawn(async move {
+        // lives for 3 s: long enough for any scenario started on this port
+        let _ = tokio::time::timeout(Duration::from_secs(3), async {
+            while let Ok((mut s, _)) = l.accept().await {
+                tokio::spawn(async move {
+                    let mut buf = [0u8; 256];
+                    let _ = tokio::time::timeout(Duration::from_millis(200), s.read(&mut buf)).await;
+                    let _ = s.write_all(b"HTTP/1.1 400 Bad Request\r\ncontent-length: 0\r\n\r\n").await;
+                });
+            }
+        })
+        .await;
+    });
+    mode == "late"
+}
+
+/// Both servers on two loopback ports. `start_server` takes an address, not a listener, so the
+/// port has to be chosen before the server binds it: the two ports are set aside with
+/// [`crate::net::ReservedPort`] and stay set aside while the servers run, so that no other
+/// scenario of this process, no other process and no outgoing connection can be given the number
+/// in between (an earlier version picked a number by binding port 0 and closing that socket;
+/// with 8 scenarios starting servers side by side one of them was eventually handed a number
+/// another had picked but not bound yet, its own TCP server failed to bind, and its clients
+/// talked to the neighbour's HTTP server — DESIGN B.9). Should a kernel refuse the server's bind
+/// next to the reservation, later attempts release the reservation just before the server
+/// starts; a bind that fails is never judged, only retried.
+async fn start_servers(state: Arc<AppState>) -> Result<Servers, StartFail> {
+    let mut reserve = true;
+    for _ in 0..10 {
+        let mut reserved = vec![crate::net::ReservedPort::new(), crate::net::ReservedPort::new()];
+        let (tcp_port, http_port) = (reserved[0].port, reserved[1].port);
+        let late = steal_port_self_test(tcp_port).await;
+        if !reserve {
+            UNRESERVED_STARTS.fetch_add(1, std::sync::atomic::Ordering::Relaxed);
+            reserved.clear();
+        }
+        let tcp = Srv::spawn(late.then_some(Duration::from_millis(60)), cascette_ribbit::tcp::start_server(format!("127.0.0.1:{tcp_port}").parse().unwrap(), state.clone()));
+        let http = Srv::spawn(None, cascette_ribbit::http::start_server(format!("127.0.0.1:{http_port}").parse().unwrap(), state.clone()));
+        let srv = Servers { tcp_port, http_port, tcp, http, _reserved: reserved };
+        // wait until both accept and both binds are known to have succeeded
+        let mut ok = false;
+        for _ in 0..200 {
+            let a = tokio::net::TcpStream::connect(("127.0.0.1", tcp_port)).await.is_ok();
+            let b = tokio::net::TcpStream::connect(("127.0.0.1", http_port)).await.is_ok();
+            if srv.tcp.exit.get().is_some() || srv.http.exit.get().is_some() || srv.tcp.task.is_finished() || srv.http.task.is_finished() {
+                break;
+            }
+            if a && b && (late || (srv.tcp.polled() && srv.http.polled())) {
+                ok = true;
                 break;
             }
             tokio::time::sleep(Duration::from_millis(5)).await;
         }
         if ok {
-            return Some(Servers { tcp_port, http_port, tcp_task, http_task });
+            return Ok(srv);
         }
-        tcp_task.abort();
-        http_task.abort();
+        srv.stop();
+        if srv.lost_port_now().is_some() {
+            PORT_RACES.fetch_add(1, std::sync::atomic::Ordering::Relaxed);
+            if std::env::var_os("VERIF_C15_STEAL_PORT").is_none() {
+                reserve = false;
+            }
+            continue;
+        }
+        // a server that had its port and ended on its own while nothing but the start-up probe
+        // (connect, close) had happened: not an environment event
+        for (name, s) in [("tcp", &srv.tcp), ("http", &srv.http)] {
+            if let Some(why) = s.died() {
+                return Err(StartFail::Died(name, why));
+            }
+        }
     }
-    None
+    Err(StartFail::NoPort)
 }
 
+enum StartFail {
+    /// ten attempts without a pair of servers that accept: machinery
+    NoPort,
+    /// (which server, why): the server bound its port and then ended during start-up
+    Died(&'static str, String),
+}
+
+impl StartFail {
+    fn report(self, whom: &str) -> (String, String, String) {
+        match self {
+            StartFail::NoPort => ("machinery".into(), "machinery".into(), "could not start servers".into()),
+            StartFail::Died(which, why) => (
+                "server-died".into(),
+                format!("server-died|{which}|at-start-up"),
+                format!("{whom}: the {} server ended on its own after a client connected and closed without sending anything (the start-up probe): {why}", which.to_uppercase()),
+            ),
+        }
+    }
+}
+
+/// One database over real sockets. A run in which a server never owned its port (see
+/// [`Exit::BindFailed`]) is void, whatever was observed, and the database is run again.
 async fn socket_level_db(db: Db) -> Vec<(String, String, String)> {
+    let mut last = String::new();
+    for _ in 0..PORT_ATTEMPTS {
+        match socket_level_db_once(&db).await {
+            Ok(vio) => return vio,
+            Err(why) => {
+                PORT_RACES.fetch_add(1, std::sync::atomic::Ordering::Relaxed);
+                last = why;
+            }
+        }
+    }
+    vec![("machinery".into(), "machinery".into(), format!("{}: {PORT_ATTEMPTS} attempts in a row lost a server port to another listener ({last})", db.describe()))]
+}
+
+async fn socket_level_db_once(db: &Db) -> Result<Vec<(String, String, String)>, String> {
     let mut vio = Vec::new();
-    let Some((state, _sc)) = load_state(&db) else { return vio };
-    let Some(srv) = start_servers(state).await else {
-        return vec![("machinery".into(), "machinery".into(), "could not start servers".into())];
+    let Some((state, _sc)) = load_state(db) else { return Ok(vio) };
+    let srv = match start_servers(state).await {
+        Ok(srv) => srv,
+        Err(f) => return Ok(vec![f.report(&db.describe())]),
     };
     let mut products: Vec<String> = db.recs.iter().map(|r| r.product.clone()).collect();
     products.sort();
     products.dedup();
     for p in &products {
-        let cands = newest(&db, p);
+        let cands = newest(db, p);
         let ps = show(p);
         for ep in ["versions", "cdns", "bgdl"] {
             // TCP v1 and v2 through the real RibbitClient
@@ -599,10 +806,10 @@ async fn socket_level_db(db: Db) -> Vec<(String, String, String)> {
                 let r = tokio::time::timeout(Duration::from_secs(5), rc.query(&format!("{ver}/products/{p}/{ep}"))).await;
                 match r {
                     Err(_) => vio.push(("no-answer".into(), format!("no-answer|tcp-{ver}"), format!("{}: TCP {ver} {ps}/{ep}: no answer within 5 s", db.describe()))),
-                    Ok(Err(e)) => vio.push(("client-rejects-response".into(), format!("socket|client-rejects-response|tcp-{ver}|{}", sig_fields(&db, &cands, ep)), format!("{}: TCP {ver} {ps}/{ep}: {e}", db.describe()))),
+                    Ok(Err(e)) => vio.push(("client-rejects-response".into(), format!("socket|client-rejects-response|tcp-{ver}|{}", sig_fields(db, &cands, ep)), format!("{}: TCP {ver} {ps}/{ep}: {e}", db.describe()))),
                     Ok(Ok(doc)) => {
                         if let Err((kind, field, detail)) = judge(&doc, ep, &cands) {
-                            vio.push((kind.clone(), format!("socket|{kind}|tcp-{ver}|{field}|{}", sig_fields(&db, &cands, ep)), format!("{}: TCP {ver} {ps}/{ep}: {detail}", db.describe())));
+                            vio.push((kind.clone(), format!("socket|{kind}|tcp-{ver}|{field}|{}", sig_fields(db, &cands, ep)), format!("{}: TCP {ver} {ps}/{ep}: {detail}", db.describe())));
                         }
                     }
                 }
@@ -612,24 +819,28 @@ async fn socket_level_db(db: Db) -> Vec<(String, String, String)> {
             let r = tokio::time::timeout(Duration::from_secs(5), tc.query(&format!("v1/products/{p}/{ep}"))).await;
             match r {
                 Err(_) => vio.push(("no-answer".into(), "no-answer|http".into(), format!("{}: HTTP {ps}/{ep}: no answer within 5 s", db.describe()))),
-                Ok(Err(e)) => vio.push(("client-rejects-response".into(), format!("socket|client-rejects-response|http|{}", sig_fields(&db, &cands, ep)), format!("{}: HTTP {ps}/{ep}: {e}", db.describe()))),
+                Ok(Err(e)) => vio.push(("client-rejects-response".into(), format!("socket|client-rejects-response|http|{}", sig_fields(db, &cands, ep)), format!("{}: HTTP {ps}/{ep}: {e}", db.describe()))),
                 Ok(Ok(doc)) => {
                     if let Err((kind, field, detail)) = judge(&doc, ep, &cands) {
-                        vio.push((kind.clone(), format!("socket|{kind}|http|{field}|{}", sig_fields(&db, &cands, ep)), format!("{}: HTTP {ps}/{ep}: {detail}", db.describe())));
+                        vio.push((kind.clone(), format!("socket|{kind}|http|{field}|{}", sig_fields(db, &cands, ep)), format!("{}: HTTP {ps}/{ep}: {detail}", db.describe())));
                     }
                 }
             }
         }
     }
-    if srv.tcp_task.is_finished() {
-        vio.push(("server-died".into(), "server-died|tcp".into(), format!("{}: the TCP server task ended", db.describe())));
+    if let Some(why) = srv.lost_port().await {
+        srv.stop();
+        eprintln!("C15: {}: void, {why}; {} observations through the foreign listener discarded{}", db.describe(), vio.len(), vio.first().map_or(String::new(), |v| format!(", e.g. [{}] {}", v.0, v.2)));
+        return Err(why);
     }
-    if srv.http_task.is_finished() {
-        vio.push(("server-died".into(), "server-died|http".into(), format!("{}: the HTTP server task ended", db.describe())));
+    if let Some(why) = srv.tcp.died() {
+        vio.push(("server-died".into(), "server-died|tcp".into(), format!("{}: the TCP server task ended: {why}", db.describe())));
     }
-    srv.tcp_task.abort();
-    srv.http_task.abort();
-    vio
+    if let Some(why) = srv.http.died() {
+        vio.push(("server-died".into(), "server-died|http".into(), format!("{}: the HTTP server task ended: {why}", db.describe())));
+    }
+    srv.stop();
+    Ok(vio)
 }
 
 fn sig_fields(db: &Db, cands: &[&Rec], ep: &str) -> String {
@@ -920,7 +1131,13 @@ pub fn run(tier: Tier, seed: u64) -> i32 {
     let robust: (u64, Vec<(String, String, String)>) = rt.block_on(async {
         let db = Db::new("base".into(), vec![Rec::base()]);
         let Some((state, _sc)) = load_state(&db) else { return (0, vec![("machinery".into(), "machinery".into(), "base database rejected".into())]) };
-        let Some(srv) = start_servers(state).await else { return (0, vec![("machinery".into(), "machinery".into(), "could not start servers".into())]) };
+        // as at the socket level: a pass in which the server never owned its port is void
+        let mut lost = String::new();
+        for _ in 0..PORT_ATTEMPTS {
+        let srv = match start_servers(state.clone()).await {
+            Ok(srv) => srv,
+            Err(f) => return (0, vec![f.report("robustness pass")]),
+        };
         let mut vio = Vec::new();
         let mut n = 0u64;
         let mut scen: Vec<(Vec<Bad>, Vec<usize>, bool)> = Vec::new();
@@ -965,14 +1182,23 @@ pub fn run(tier: Tier, seed: u64) -> i32 {
         split_counts = (n_split, unjudged_split);
         // the server must still be alive and answering
         let rc = cascette_protocol::RibbitClient::new(format!("tcp://127.0.0.1:{port}")).expect("client");
-        if tokio::time::timeout(Duration::from_secs(3), rc.query("v1/products/wow/versions")).await.map(|r| r.is_ok()) != Ok(true) || srv.tcp_task.is_finished() {
+        if tokio::time::timeout(Duration::from_secs(3), rc.query("v1/products/wow/versions")).await.map(|r| r.is_ok()) != Ok(true) || srv.tcp.task.is_finished() {
             vio.push(("server-wedged".into(), "server-wedged".into(), "after all robustness scenarios the server no longer answers a well-formed request".into()));
         }
-        srv.tcp_task.abort();
-        srv.http_task.abort();
-        (n, vio)
+        let lost_now = srv.lost_port().await;
+        srv.stop();
+        if let Some(why) = lost_now {
+            PORT_RACES.fetch_add(1, std::sync::atomic::Ordering::Relaxed);
+            lost = why;
+            continue;
+        }
+        return (n, vio);
+        }
+        (0, vec![("machinery".into(), "machinery".into(), format!("robustness: {PORT_ATTEMPTS} attempts in a row lost a server port to another listener ({lost})"))])
     });
     drop(rt);
+    // a server that died at start-up is reported as such; that no scenario ran is then no news
+    let robust_started = !robust.1.iter().any(|v| v.1.ends_with("|at-start-up"));
     for (kind, sig, detail) in robust.1 {
         if kind == "machinery" {
             rep.machinery_error(&detail);
@@ -981,9 +1207,13 @@ pub fn run(tier: Tier, seed: u64) -> i32 {
         }
     }
     rep.bump("robustness_scenarios", robust.0);
+    rep.bump("socket_scenarios_void_for_a_lost_port_and_run_again", PORT_RACES.load(std::sync::atomic::Ordering::Relaxed));
+    rep.bump("server_starts_without_port_reservation", UNRESERVED_STARTS.load(std::sync::atomic::Ordering::Relaxed));
     rep.bump("split_request_scenarios", split_counts.0);
     rep.bump("split_request_scenarios_unjudged_for_timing", split_counts.1);
-    if split_counts.0 == 0 {
+    if !robust_started {
+        rep.cap_hit("the robustness pass did not run: the server died at start-up (reported)");
+    } else if split_counts.0 == 0 {
         rep.machinery_error("no split-request scenario ran");
     } else if split_counts.1 * 2 > split_counts.0 {
         rep.cap_hit("more than half of the split-request scenarios could not be judged (machine too loaded)");
